@@ -27,8 +27,18 @@ def run(tier, seed):
         run_jobs(rep, c19.job, jobs, name=lambda a: "BatchMapToScalarField %s" % (a[1:],), on_result=on)
     except Exception as e:  # noqa
         rep.inconclusive_group("batch map", str(e)[:300])
+    try:
+        from checks import c11bytes
+        c11bytes.load()
+        from gosmt.check import _Info as _I2
+
+        def on2(a, item):
+            rep.add(item["group"], item["recs"], _I2(item["info"]), key_prefix="VerifC11BytesLE", replay=c11bytes.replay_cb)
+        run_jobs(rep, c11bytes.job, [()], name=lambda a: "fp.BytesLE", on_result=on2)
+    except Exception as e:  # noqa
+        rep.inconclusive_group("fp.BytesLE byte layout", str(e)[:300])
     rep.bounds["batch"] = "BatchMapToScalarField on every pointer list of length 0..3 over a 3-element pool, incl. the identity (x = 0) with stale result slots"
-    rep.bounds["outside"] = rep.bounds.get("outside", "") + "; fp.BytesLE / fr.SetBytesLE byte-level behaviour (uninterpreted here: C16 for the scalar decoder, gnark for the base-field encoder); un-Equal elements have different x/y follows from Equal being exactly the cross-product test (C07)"
+    rep.bounds["outside"] = rep.bounds.get("outside", "") + "; the scalar decoder's byte-level behaviour is C16, fp.BytesLE's is the separate byte-layout group of this check (gnark's fromMont summarised as UNMONT modulo p); un-Equal elements have different x/y follows from Equal being exactly the cross-product test (C07)"
     return rep.finish(explanation="MapToScalarField / BatchMapToScalarField executed from SSA on symbolic coordinates: value is IOTA(X/Y), invariant under projective scaling and (-x,-y), batch equals single position by position.")
 
 
